@@ -931,6 +931,24 @@ class Fragment:
         self.note('V-PAT', cnt, '`Some(&x) => E` -> `Some(__p_x) => { let x = *__p_x; E }` (Verus has no ref patterns; E verbatim)')
         return cnt
 
+    def pull_hint(self, hint, indent='            '):
+        """ghost text right after the element is pulled from `self.prev`.  `hint` names the pulled element `__e`.
+        `match self.prev.next() {` -> `let __e = self.prev.next(); <hint> match __e {` (scrutinee bound to a ghost-visible name);
+        if the code already binds it (`let x = self.prev.next();`) the hint is placed after that statement with x for __e."""
+        s = self._src()
+        m = next((m for m in re.finditer(r'match self\.prev\.next\(\) \{', self.text) if s.mask[m.start()]), None)
+        if m:
+            self.text = self.text[:m.start()] + 'let __e = self.prev.next();\n' + indent + hint + '\n' + indent + 'match __e {' + self.text[m.end():]
+            self.note('V-SPEC', 1, 'scrutinee bound to a ghost-visible name `__e`')
+            return '__e'
+        m = next((m for m in re.finditer(r'let (?:mut )?(\w+)(?:\s*:[^=;]*)? = self\.prev\.next\(\);', self.text) if s.mask[m.start()]), None)
+        if m:
+            name = m.group(1)
+            self.text = self.text[:m.end()] + '\n' + indent + re.sub(r'\b__e\b', name, hint) + self.text[m.end():]
+            self.note('V-SPEC', 1, f'ghost text after `let {name} = self.prev.next();`')
+            return name
+        raise ScanError(f"{self.what}: the statement pulling from self.prev was not found")
+
     def loops(self):
         """[(kw_idx, body_open_idx)] of while/for/loop headers inside the fn body, in source order."""
         s = self._src()
